@@ -271,9 +271,14 @@ CLAIMED = {
         "match passes check (>= min_match peaks, lengths and angle in range), consists of working-set peaks, has one integer "
         "index pair per peak and satisfies the weighted normal equations of its own peaks (tumble_post); from a candidate "
         "pair whose first round catches only node peaks of a noise-free lattice it returns the EXACT lattice with all strong "
-        "node peaks and their true indices (tumble_exact, shares exact_stages with C05). NOT proved: that the figure of merit "
-        "prefers that candidate, i.e. completeness of the FIRST match on noise-free lattices - oracle only. hdbscan replaced "
-        "by a deterministic stand-in.",
+        "node peaks and their true indices (tumble_exact, shares exact_stages with C05). The ranking of candidate matches is "
+        "modelled over the reals (Model.fomWritten = the pinned text of fom with square roots): closed form "
+        "(sum elev)^2 |det|/(|a|^2+|b|^2) (fom_ranking_closed_form), the full lattice outranks its index-2 sublattice whenever "
+        "that holds at most 1/sqrt2 of the elevation (full_lattice_outranks_sublattice), and a witness that it can be outranked "
+        "otherwise (known finding D20: noise-free 3x3 block, |a| = 0.21 |b|, elevations heavy on the even columns - the first "
+        "match is the sublattice (2a, b)); every observed _find_best_vector_match call is compared with the closed form. NOT "
+        "proved: completeness of the FIRST match on noise-free lattices in general (which candidates exist) - oracle only. "
+        "hdbscan replaced by a deterministic stand-in.",
         "Lean kernel + standard axioms; translator; A-CL (clusterer stand-in); oracle answers are recorded from the real run.",
         "Lean 4 proof (loop invariant by induction over recorded oracle answers) + replay correspondence + cloud oracle",
         "DESIGN.md §7 C12"),
